@@ -4,7 +4,9 @@ CHECK = {
     "pkg": "internal/index/manager",
     "level": "fault_enumeration",
     "engine": "manager-scenario-engine",
-    "technique": "stateful property testing (rapid state machine) of the service with a harness-owned schedule of background job completions; invariant evaluated inside the service loop after every step",
+    "technique": ("fault injection over generated histories (rapid): (a) crash copies of the data directory at harness-owned job gates plus simulated interrupted writes, "
+                  "(b) a child process running a generated script under strace whose file system calls are counted and delayed so that the process can be stopped right behind "
+                  "a chosen one and its directories copied (the state a SIGKILL there leaves); every crash state is restarted and judged by a recovery oracle against the acknowledgements"),
     "rule": ("histories as in the scenario engine (generated UDP traffic cut into captures; imports, tag/mark/converter calls, config and webhook "
              "changes, generated deliveries of parked job completions), split into 2-4 epochs. An epoch ends with a clean Close (after settling) or with a "
              "crash point: the whole data directory is copied while jobs are parked at their gates - i.e. between a job's file operations (index written, "
@@ -14,9 +16,19 @@ CHECK = {
              "attachments and no unacknowledged one exists; config and webhooks as acknowledged; every conversation of a delivered import is visible under the "
              "id recorded then, each connection once, no stream that no written capture contains; after a clean restart the payload equals that of the imported "
              "captures; after the last epoch settles, the C06 tag oracle holds for all tags. Non-trivial: a crash with at least one job parked, or a copy with "
-             "partial files; distinct = distinct histories."),
-    "level_text": "crash points enumerated at gate granularity (every position between a background job's file operations and its registration, on generated histories) plus simulated interrupted writes; recovery checked against the acknowledged state",
-    "level_note": "crash = copy of the data directory at a gate (process-kill semantics for files already written, no torn write below a whole file except the three simulated partial files); SIGKILL inside a system call (strace injection) is not built; PCAP-over-IP endpoints are not exercised",
+             "partial files; distinct = distinct histories. "
+             "Kill campaign (TestVerifC12Kill): a script of 5-18 calls (imports of 1-2 captures moved into the capture directory, tag add/query/delete/colour, mark add/remove, converter "
+             "attach/detach, AutoInsertLimitToQuery, webhook add/remove, PCAP-over-IP endpoint add/remove, wait-for-quiescence, clean restart) is run by a child process with free-running "
+             "background jobs under `strace -f -e inject=<file calls>:delay_exit`; after every call the child appends an acknowledgement (what the call returned and the tag table, settings, "
+             "webhooks, endpoints the service then reports; after a wait also the visible streams with their ids and the captures handed over). The parent counts completed calls "
+             "that change files below the data directories (creating openat, write, pwrite, rename, unlink, ftruncate, fsync, mkdir) and at generated counts (gaps 1..34, up to 24 per run) stops the "
+             "child with SIGSTOP, waits until every thread is stopped, copies index/state/snapshot directories and the acknowledgement log, and continues it; the directory at the end of the script "
+             "(exit without Close) is one more crash state. Oracle per crash state, after manager.New on the copy: New succeeds; tags, settings, webhooks and endpoints equal the last acknowledged "
+             "state except for the object of the one call that was in flight; every stream acknowledged at the last quiescence is visible under its id, each connection once, reading "
+             "every stream works, and every visible stream carries the payload the traffic model gives for the captures acknowledged as imported plus some subset of the captures handed over later; "
+             "after waiting for quiescence no tag has pending streams and the C06 tag oracle holds. Non-trivial: at least 3 crash states in the run."),
+    "level_text": "crash points enumerated (a) at gate granularity (every position between a background job's file operations and its registration) plus simulated interrupted writes and (b) behind individual file system calls of a real service process (generated positions in the sequence of creating/writing/renaming/unlinking calls on the data directories); recovery checked against the acknowledged state",
+    "level_note": "a crash state is a copy of the directories taken while the process is stopped (gate campaign: parked at a gate; kill campaign: SIGSTOP right behind a delayed file system call), which is what a process kill at that instant leaves (page cache contents survive a process kill); power loss (unsynced data, reordered metadata) and torn single write calls are outside; the stop lands behind the chosen call or a few calls later when other threads are writing; a failing crash state is saved inside the replay file and re-judged deterministically by TestVerifC12KillReplay; PCAP-over-IP endpoints are configured (unreachable peers) but deliver no packets",
     "assumptions": [],
     "extra_builds": [{"pkg": "internal/verif/convbin", "out": "convbin"}],
     "campaigns": [
